@@ -179,6 +179,56 @@ Proof.
     + apply Rinv_le_contravar; lra.
   - lra.
 Qed.
+
+(* ---- crystal angles up to 180 deg (the property measures 12..90 deg between optic axis and BEAM: a crystal angle of 143 deg with a
+   pump along z is 37 deg from the axis).  The step eps^(1/3)|theta| doubles, so the crude bound above gives 1.8e-6; with
+   |1/no^2 - 1/ne^2| <= 0.7 (any pair of indices >= 1.2; every built-in crystal) the third derivative is below 12900 and 1e-6 holds *)
+Hypothesis Hdl : Rabs (ao - ae) <= 0.7.
+
+Lemma uu_ranges_wide t :
+  Rabs (uu1 t) <= 0.7 /\ Rabs (uu2 t) <= 1.4 /\ Rabs (uu3 t) <= 2.8.
+Proof.
+  pose proof (sz_sp_circle t) as Hc. pose proof (pow2_ge_0 (sz t)). pose proof (pow2_ge_0 (sp t)).
+  assert (Hprod : - / 2 <= sz t * sp t <= / 2).
+  { pose proof (pow2_ge_0 (sz t - sp t)). pose proof (pow2_ge_0 (sz t + sp t)). split; nra. }
+  assert (Hdiff : -1 <= sp t ^ 2 - sz t ^ 2 <= 1) by lra.
+  pose proof (Rabs_le_inv' _ _ Hdl) as Hab.
+  unfold uu1, uu2, uu3. repeat split; apply Rabs_le; split; nra.
+Qed.
+
+Theorem third_derivative_bound_wide t : Rabs (Derive_n (n_of no ne dx dz) 3 t) <= 12900.
+Proof.
+  rewrite (Dn3 _ uu1 uu2 uu3 w_derive uu1_derive uu2_derive t). unfold d3.
+  pose proof (w_range t) as Hw. destruct (uu_ranges_wide t) as (H1 & H2 & H3).
+  apply Rabs_le_inv' in H1. apply Rabs_le_inv' in H2. apply Rabs_le_inv' in H3.
+  generalize dependent (n_of no ne dx dz t). generalize dependent (uu1 t). generalize dependent (uu2 t). generalize dependent (uu3 t).
+  intros c Hc b Hb a Ha x Hx. interval.
+Qed.
+
+Theorem walkoff_code_vs_exact_wide theta : Rabs theta <= PI ->
+  Rabs (walkoff_gen (n_of no ne dx dz) theta - walkoff_exact (n_of no ne dx dz) theta) <= 1e-6.
+Proof.
+  intros Hth.
+  pose proof (w_range theta) as [Hw1 Hw4].
+  pose proof (walkoff_gen_truncation (n_of no ne dx dz) theta 12900 ltac:(lra) smooth third_derivative_bound_wide) as H.
+  eapply Rle_trans; [exact H |].
+  pose proof cbrt_eps_pos as Hp.
+  assert (Hm : Rmax (Rabs theta) 1 <= PI) by (apply Rmax_lub; [exact Hth | pose proof PI2_1; pose proof PI_RGT_0; lra]).
+  assert (Hm0 : 0 < Rmax (Rabs theta) 1) by (eapply Rlt_le_trans; [| apply Rmax_r]; lra).
+  set (hm := Rpower eps64 (1 / 3) * Rmax (Rabs theta) 1) in *.
+  assert (Hhm0 : 0 < hm) by (unfold hm; apply Rmult_lt_0_compat; assumption).
+  assert (Hhmax : hm <= 1.9025e-5).
+  { apply Rle_trans with (Rpower eps64 (1 / 3) * PI).
+    - unfold hm. apply Rmult_le_compat_l; [lra | exact Hm].
+    - unfold Rpower, eps64. interval. }
+  assert (hm ^ 2 <= 1.9025e-5 ^ 2) by (apply pow_incr; lra).
+  apply Rle_trans with (12900 * 1.9025e-5 ^ 2 / 6).
+  - unfold Rdiv. apply Rmult_le_compat; try lra.
+    + apply Rmult_le_pos; [lra | apply pow2_ge_0].
+    + left. apply Rinv_0_lt_compat. lra.
+    + apply Rinv_le_contravar; lra.
+  - lra.
+Qed.
 End Uniaxial.
 
 (* ---- the statement on the generated index_along, any unit beam direction *)
@@ -261,4 +311,48 @@ Proof.
   intros Hno Hne Hth Hp. rewrite <- walkoff_general_pump.
   apply (walkoff_1e6_real no ne phi (0, 0, 1) theta p); try assumption.
   unfold unit_vec, vnorm2, vdot, vx, vy, vz; cbn [fst snd]. ring.
+Qed.
+
+(* the same for every crystal angle up to 180 deg, for index pairs with |1/no^2 - 1/ne^2| <= 0.7 *)
+Theorem walkoff_1e6_real_wide no ne phi d theta p :
+  1 <= no <= 4 -> 1 <= ne <= 4 -> Rabs (inv2 no - inv2 ne) <= 0.7 -> unit_vec d -> Rabs theta <= PI ->
+  (direction_dependent no ne p ->
+     Rabs (walkoff_gen (fun t => index_along_gen t phi no no ne d p) theta - walkoff_uniaxial_general no ne d theta) <= 1e-6) /\
+  (direction_independent no ne p ->
+     walkoff_gen (fun t => index_along_gen t phi no no ne d p) theta = 0).
+Proof.
+  intros Hno Hne Hdl Hd Hth.
+  assert (Pno : 0 < no) by lra. assert (Pne : 0 < ne) by lra.
+  assert (Hdxz : vx d * vx d + vz d * vz d <= 1).
+  { pose proof (unit_vec_components d Hd). pose proof (sq_nonneg (vy d)). lra. }
+  split; intros Hp.
+  - rewrite (walkoff_gen_ext _ (n_of no ne (vx d) (vz d)) theta)
+      by (intros t; apply (proj1 (index_along_gen_uniaxial no ne phi d p t Pno Pne Hd) Hp)).
+    rewrite <- (walkoff_exact_n_of no ne d theta Pno Pne Hd).
+    apply walkoff_code_vs_exact_wide; assumption.
+  - rewrite (walkoff_gen_ext _ (fun _ => no) theta)
+      by (intros t; apply (proj2 (index_along_gen_uniaxial no ne phi d p t Pno Pne Hd) Hp)).
+    apply walkoff_gen_const. lra.
+Qed.
+
+(* the derivative behind walkoff_exact EXISTS for the uniaxial model (no conclusion rests on Coq's totalised Derive) *)
+Theorem index_model_derivable no ne phi d p th :
+  0 < no -> 0 < ne -> unit_vec d -> ex_derive (fun t => index_model t phi no no ne d p) th.
+Proof.
+  intros Hno Hne Hd.
+  assert (Hdxz : vx d * vx d + vz d * vz d <= 1).
+  { pose proof (unit_vec_components d Hd). pose proof (sq_nonneg (vy d)). lra. }
+  assert (Hm : forall t, index_along_gen t phi no no ne d p = index_model t phi no no ne d p)
+    by (intros t; apply index_along_is_model; assumption).
+  assert (Hcase : direction_dependent no ne p \/ direction_independent no ne p).
+  { unfold direction_dependent, direction_independent. destruct (Rle_dec ne no) as [H | H]; destruct p; try (left; left; split; [exact H | reflexivity]);
+      try (right; left; split; [exact H | reflexivity]); apply Rnot_le_lt in H;
+      try (left; right; split; [lra | reflexivity]); try (right; right; split; [lra | reflexivity]). }
+  destruct Hcase as [Hp | Hp].
+  - apply (ex_derive_ext (n_of no ne (vx d) (vz d))).
+    + intros t. rewrite <- Hm. symmetry. apply (proj1 (index_along_gen_uniaxial no ne phi d p t Hno Hne Hd) Hp).
+    + eexists. apply (n_of_derive no ne Hno Hne (vx d) (vz d) th Hdxz).
+  - apply (ex_derive_ext (fun _ => no)).
+    + intros t. rewrite <- Hm. symmetry. apply (proj2 (index_along_gen_uniaxial no ne phi d p t Hno Hne Hd) Hp).
+    + apply ex_derive_const.
 Qed.
